@@ -204,3 +204,96 @@ theorem delete_R (n : Nat) (t : Tab) (d : Nat) (hd : d < n) (hR : R n t) (t' : T
   exact ⟨this.1, fun q hq _ hlt => this.2 q hq hlt⟩
 
 end UsualProofs.C15.HTdel
+
+namespace UsualProofs.C15.HTdel
+
+/-- a stronger `scan_some`: everything scanned over, and the slot found, is occupied -/
+theorem scan_some_occ (n : Nat) (t : Tab) (d : Nat) :
+    ∀ fuel j p, scan n t d j fuel = some p →
+      ∃ j', j ≤ j' ∧ j' < j + fuel ∧ p = plus n d j' ∧ canMove n t d p = true ∧
+        ∀ i, j ≤ i → i ≤ j' → t (plus n d i) ≠ none := by
+  intro fuel
+  induction fuel with
+  | zero => intro j p h; simp [scan] at h
+  | succ fuel ih =>
+    intro j p hsc
+    unfold scan at hsc
+    simp only at hsc
+    split at hsc
+    · cases hsc
+    · next hocc =>
+      split at hsc
+      · next hc =>
+        cases hsc
+        exact ⟨j, Nat.le_refl _, by omega, rfl, hc, fun i h1 h2 => by
+          have : i = j := by omega
+          subst this; exact hocc⟩
+      · obtain ⟨j', a, b, c, e, f⟩ := ih (j + 1) p hsc
+        refine ⟨j', by omega, by omega, c, e, ?_⟩
+        intro i h1 h2
+        by_cases hij : i = j
+        · subst hij; exact hocc
+        · exact f i (by omega) h2
+
+/-- the compaction loop terminates: the hole only travels towards the first empty slot -/
+theorem compact_total (n : Nat) : ∀ fuel (t : Tab) (d e : Nat), d < n → e < n → t e = none → e ≠ d →
+    fwd n d e < fuel → ∃ t', compact n t d fuel = some t' := by
+  intro fuel
+  induction fuel with
+  | zero => intro t d e _ _ _ _ h; omega
+  | succ fuel ih =>
+    intro t d e hd he hte hne hf
+    unfold compact
+    split
+    · next p hsc =>
+      obtain ⟨j', a, b, c, _, occ⟩ := scan_some_occ n t d (n - 1) 1 p hsc
+      have hj' : j' < n := by omega
+      have hp : p < n := by rw [c]; exact plus_lt n d j' hd hj'
+      have hfe : fwd n d e < n := fwd_lt n d e hd he
+      have hfe0 : 0 < fwd n d e := by have := fwd_eq_zero n d e hd he; omega
+      have hlt : j' < fwd n d e := by
+        apply Nat.lt_of_not_le
+        intro hle
+        have := occ (fwd n d e) (by omega) hle
+        rw [plus_fwd n d e hd he] at this
+        exact this hte
+      have hpe : p ≠ e := by
+        intro e'; have := occ j' a (Nat.le_refl _); rw [← c, e'] at this; exact this hte
+      apply ih (upd t d (t p)) p e hp he ?_ (fun h => hpe h.symm) ?_
+      · simp only [upd, if_neg hne]; exact hte
+      · have : fwd n d p = j' := by rw [c]; exact fwd_plus n d j' hd hj'
+        have h3 : fwd n p e < fwd n d e := by
+          simp only [fwd] at this hlt hf ⊢
+          by_cases c1 : d ≤ p <;> by_cases c2 : d ≤ e <;> by_cases c3 : p ≤ e <;>
+            simp only [c1, c2, c3, if_true, if_false] at this hlt hf ⊢ <;> omega
+        omega
+    · exact ⟨_, rfl⟩
+
+/-- inserting into the first empty slot of an item's probe path keeps the reachability invariant -/
+theorem insert_R (n : Nat) (t : Tab) (e h : Nat) (he : e < n) (hh : h < n) (hR : R n t)
+    (hpath : ∀ q, q < n → fwd n h q < fwd n h e → t q ≠ none) : R n (upd t e (some h)) := by
+  intro s hs h' hts
+  simp only [upd] at hts
+  by_cases hse : s = e
+  · subst hse
+    rw [if_pos rfl] at hts
+    cases hts
+    refine ⟨hh, ?_⟩
+    intro q hq hlt
+    simp only [upd]
+    split
+    · simp
+    · exact hpath q hq hlt
+  · rw [if_neg hse] at hts
+    have := hR s hs h' hts
+    refine ⟨this.1, ?_⟩
+    intro q hq hlt
+    simp only [upd]
+    split
+    · simp
+    · exact this.2 q hq hlt
+
+theorem R_empty (n : Nat) : R n (fun _ => none) := by
+  intro s _ h hts; cases hts
+
+end UsualProofs.C15.HTdel
